@@ -372,6 +372,8 @@ fn build_evidence(
             "clock_reads_by_sut": s.clock_reads_by_sut,
             "getpid_calls_by_sut": s.getpid_calls_by_sut,
             "cpu_count_queries_by_sut (sched_getaffinity seam)": s.affinity_calls_by_sut,
+            "epochs_whose_stderr_was_a_terminal (pty; observed with isatty in the epoch process)": s.epochs_stderr_tty,
+            "plan_executions_repeated_after_a_watchdog_kill": exec::WATCHDOG_RETRIES.load(std::sync::atomic::Ordering::SeqCst),
             "files_left_on_simulated_disk": s.fs_leftovers,
             "epochs_with_private_tmp_mounts (mount namespace; /tmp, /var/tmp, /dev/shm inside the run's simulated disk)": s.epochs_private_fs,
             "epochs_without_private_mounts (namespaces not permitted: TMPDIR/HOME redirection only)": s.epochs_shared_fs,
@@ -390,7 +392,7 @@ fn build_evidence(
         "real_vs_stub": {
             "real": ["entrait_macros expansion code from /repo's working tree (shadow manifest, --cfg entrait_verif): input.rs, opt.rs, analyze_generics.rs, generics.rs, signature/*, trait_codegen.rs, fn_delegation_codegen.rs, attributes.rs, sub_attributes.rs, entrait_fn/*, entrait_trait/*, entrait_impl/*, idents.rs, token_util.rs, set_fallbacks", "syn, quote, proc-macro2 (fallback mode)", "std thread-locals and RandomState on real OS threads", "real-bridge tier: rustc + the shipped proc-macro (invoke and the four wrappers)"],
             "mirrored": ["lib.rs::invoke and the four #[proc_macro_attribute] wrappers -> verif::expand (syn::parse2 instead of parse_macro_input!)"],
-            "stub": ["rustc's proc-macro bridge, driver and thread pool -> session simulator", "OS getrandom / clock_gettime / getpid / sched_getaffinity (CPU count) / environment / command line / cwd -> simulator-owned", "file system: /tmp, /var/tmp, /dev/shm and the home directory are private bind mounts onto the run's simulated disk (durable across the epochs of a run)", "external programs: stand-in tools behind a simulated PATH", "build flavour: one reference session runs the simulator built with debug assertions and overflow checks"],
+            "stub": ["rustc's proc-macro bridge, driver and thread pool -> session simulator", "OS getrandom / clock_gettime / getpid / sched_getaffinity (CPU count) / environment / command line / cwd / stderr (pipe or pseudo-terminal) -> simulator-owned", "file system: /tmp, /var/tmp, /dev/shm and the home directory are private bind mounts onto the run's simulated disk (durable across the epochs of a run)", "external programs: stand-in tools behind a simulated PATH", "build flavour: one reference session runs the simulator built with debug assertions and overflow checks"],
         },
         "exhaustive": false,
     });
